@@ -74,6 +74,15 @@ func (c30tBH) GetBalance(context.Context, codec.Address, state.Immutable) (uint6
 
 func c30tKey(i int) []byte { return keys.EncodeChunks([]byte{0x7, byte(i)}, 1) }
 
+// value 0 is the EMPTY value: a non-nil zero-length slice, as merkledb returns for a key that
+// exists with an empty value (legal: zero chunks)
+func c30tVal(v int) []byte {
+	if v == 0 {
+		return []byte{}
+	}
+	return []byte{byte(v)}
+}
+
 func c30tList(s string) []string {
 	if s == "-" || s == "" {
 		return nil
@@ -124,7 +133,7 @@ func c30tActions(f []string) ([]*chaintest.TestAction, bool) {
 				return nil, false
 			}
 			a.WriteKeys = append(a.WriteKeys, c30tKey(x))
-			a.WriteValues = append(a.WriteValues, []byte{byte(v)})
+			a.WriteValues = append(a.WriteValues, c30tVal(v))
 		}
 		out = append(out, a)
 	}
@@ -141,6 +150,13 @@ func c30tErr(msg string) string {
 		return "err3"
 	}
 	return "err?" + strings.ReplaceAll(msg, " ", "_")
+}
+
+func c30tGenVal(r *verifh.Run) int {
+	if r.RNG.Chance(25) {
+		return 0 // empty value
+	}
+	return 1 + r.RNG.Intn(9)
 }
 
 func c30tGenAction(r *verifh.Run, sloppy bool) string {
@@ -181,7 +197,7 @@ func c30tGenAction(r *verifh.Run, sloppy bool) string {
 			need = 5
 		}
 		if k, ok := pick(need); ok {
-			ws = append(ws, fmt.Sprintf("%d=%d", k, 1+r.RNG.Intn(9)))
+			ws = append(ws, fmt.Sprintf("%d=%d", k, c30tGenVal(r)))
 		}
 	}
 	sort.Strings(rs)
@@ -210,12 +226,15 @@ func TestVerifC30T(t *testing.T) {
 	}
 	lines := r.ReplayLines()
 	if lines == nil {
+		// corpus: a key that exists with an empty value is read / overwritten
+		lines = append(lines, "tstate 0=0,1=0", "texec K0:1 R0 W- E0", "tsim K0:1 R0 W- E0", "ttx K0:1 R0 W- E0",
+			"texec K1:5 R1 W1=3 E0", "ttx K1:5 R1 W1=3 E0", "texec K2:7 R- W2=0 E0 K2:1 R2 W- E0", "ttx K2:7 R- W2=0 E0 K2:1 R2 W- E0")
 		lines = append(lines, "tstate 0=5", "texec K0:1 R0 W- E0 K- R0 W- E0", "ttx K0:1 R0 W- E0 K- R0 W- E0", "tsim K- R0 W1=3 E0")
 		for i := 0; i < r.N(2500, 60000); i++ {
 			var kv []string
 			for k := 0; k < c30tN; k++ {
 				if r.RNG.Chance(50) {
-					kv = append(kv, fmt.Sprintf("%d=%d", k, 1+r.RNG.Intn(9)))
+					kv = append(kv, fmt.Sprintf("%d=%d", k, c30tGenVal(r)))
 				}
 			}
 			st := "-"
@@ -268,7 +287,7 @@ func TestVerifC30T(t *testing.T) {
 					ok = false
 					break
 				}
-				store[string(c30tKey(k))] = []byte{byte(v)}
+				store[string(c30tKey(k))] = c30tVal(v)
 			}
 			if !ok {
 				r.Emit(l, "bad-op")
